@@ -4,7 +4,7 @@ From TS Require Import Model.Str Model.Outcome Model.Unicode Model.Syntax Model.
 From TS Require Import Model.TopsortAlgo Model.Topsort Model.Lang.Common.
 From TS Require Import Model.Lang.TypeScript Model.Lang.Kotlin Model.Lang.Swift Model.Lang.Scala Model.Lang.Go Model.Lang.Python.
 From TS Require Import Spec.Lexers Spec.C15Spec Spec.C15Render.
-From TS Require Proofs.C15_Replace Proofs.C15 Proofs.C15_Render Proofs.C15_Kotlin Proofs.C15_Go Proofs.C15_Swift Proofs.C15_Python Proofs.C15_TypeScript.
+From TS Require Proofs.C15_Front Proofs.C15_Replace Proofs.C15 Proofs.C15_Render Proofs.C15_Kotlin Proofs.C15_Go Proofs.C15_Swift Proofs.C15_Python Proofs.C15_TypeScript.
 Import ListNotations.
 From TS Require Props.C15.
 
@@ -234,3 +234,31 @@ Goal forall (uc : unicode) (cfg : ts_config),
     c15_contained C15ts LCode (mark (c15_file_pieces C15ts parts)) = true.
 Proof. exact Props.C15.C15_ts_file. Qed.
 Print Assumptions Props.C15.C15_ts_file.
+Goal forall uc tstr T attrs ident gens fs it,
+  parse_struct uc tstr T attrs ident gens fs = Ok it ->
+  Forall (fun d => safe_line eol_lf_cr d = true) (c15_item_docs it).
+Proof. exact Props.C15.C15_parsed_struct_line_free. Qed.
+Print Assumptions Props.C15.C15_parsed_struct_line_free.
+Goal forall uc tstr T attrs ident gens vs it,
+  parse_enum uc tstr T attrs ident gens vs = Ok it ->
+  Forall (fun d => safe_line eol_lf_cr d = true) (c15_item_docs it).
+Proof. exact Props.C15.C15_parsed_enum_line_free. Qed.
+Print Assumptions Props.C15.C15_parsed_enum_line_free.
+Goal forall uc tstr attrs ident gens t it,
+  parse_type_alias uc tstr attrs ident gens t = Ok it ->
+  Forall (fun d => safe_line eol_lf_cr d = true) (c15_item_docs it).
+Proof. exact Props.C15.C15_parsed_alias_line_free. Qed.
+Print Assumptions Props.C15.C15_parsed_alias_line_free.
+Goal forall (cfg : kt_config),
+  c15_plain C15kt (kt_prefix cfg) = true ->
+  c15_mappings_plain C15kt (kt_type_mappings cfg) = true ->
+  forall it text,
+  c15_item_strict C15kt Kotlin it = true ->
+  Forall (fun d => safe_line eol_lf_cr d = true) (c15_item_docs it) ->
+  kt_write_item cfg it = Ok text ->
+  exists parts,
+    text = text_of (c15_file_pieces C15kt parts) /\
+    docs_of (c15_file_pieces C15kt parts) = c15_item_docs_helpers_first it /\
+    c15_contained C15kt LCode (mark (c15_file_pieces C15kt parts)) = true.
+Proof. exact Props.C15.C15_kt_item_line_free. Qed.
+Print Assumptions Props.C15.C15_kt_item_line_free.
